@@ -336,3 +336,389 @@ def run_c13(ctx, spec, out):
         if len(v.samples) < 3:
             v.samples.append({"history": h.steps[:14]})
     out.extra_cov["traces"] = ntraces
+
+
+# ---------------------------------------------------------------------------------------------
+# C12 / C03 / C11: data histories
+
+def dyn_columns(schema, table, flags):
+    return [c for c in worldgen.table_columns(schema, table, flags) if c["fetch"] == "Dynamic"]
+
+
+def observe_queries(h, schema, wb, flags, tables):
+    """GET with key + dynamic (and a few static) columns on the given tables"""
+    for table in tables:
+        cols = worldgen.table_columns(schema, table, flags)
+        names = [c["name"] for c in cols if c["dtype"] != "InterfaceListCol"]
+        keys = gen.key_columns(table)
+        extra = []
+        if table in ("hosts", "services"):
+            extra = ["comments", "downtimes"]
+        for chunk in range(0, len(names), 30):
+            part = [n for n in names[chunk:chunk + 30] if n not in keys]
+            text = "GET %s\nColumns: %s\nOutputFormat: wrapped_json\n%s\n" % (table, " ".join(keys + part + (extra if chunk == 0 else [])), "".join("Sort: %s asc\n" % k for k in keys))
+            h.query(text, [wb], {"observe": table})
+
+
+def finish_histories(ctx, v, hists, impl_lines, model_lines, min_steps=6):
+    impl, model = run_lines(ctx, impl_lines, model_lines)
+    for h, wb in hists:
+        case = {"text": json.dumps(h.steps)[:200], "dataset": None, "extra": {"history": h.steps, "lines": h.impl}}
+        ok = True
+        for i, (cid, kind, what) in enumerate(h.checks):
+            if not ok:
+                break
+            ok = compare_state(v, case, i, what, impl.get(cid), model.get(cid))
+        # the served data are compared even when the bookkeeping differs: a wrong answer is the failing input to report
+        for cid, qcase in h.queries.items():
+            qcase = dict(qcase, extra=dict(qcase.get("extra") or {}, lines=[l for l in h.impl if l["id"] <= cid]))
+            queryfam.evaluate_case(v, qcase, impl.get(cid), model.get(cid), set())
+        v.stats["evaluated"] += 1
+        hh = common.case_hash(h.steps)
+        if len(h.steps) >= min_steps and hh not in v.distinct:
+            v.distinct.add(hh)
+            v.stats["nontrivial"] += 1
+        if len(v.samples) < 3:
+            v.samples.append({"history": [s for s in h.steps if s.get("op") != "query"][:14]})
+    return impl, model
+
+
+def run_c12(ctx, spec, out):
+    rng = random.Random("C12-%d" % ctx["seed"])
+    v = out.v
+    nh = 30 if ctx["tier"] == "quick" else 500
+    schema = ctx["schema"]
+    impl_lines, model_lines, hists = [], [], []
+    nid = 0
+    for _ in range(nh):
+        wb, flags = small_world(rng, schema, {"nhosts": [1, 2, 3]})
+        cfg = {"update_interval": 5, "max_parallel_peer_connections": 1, "backend_keepalive": rng.random() < 0.5, "idle_timeout": 100000}
+        h = History(schema, nid)
+        h.both({"op": "clock", "seconds": T0})
+        h.both({"op": "world", "world": {"config": cfg, "backends": [wb]}})
+        pid = wb["id"]
+        h.both({"op": "init", "peer": pid}, "state")
+        hosts = [r["name"] for r in wb["tables"]["hosts"]["rows"]]
+        svcs = [(r["host_name"], r["description"]) for r in wb["tables"]["services"]["rows"]]
+        targets = [(x, "") for x in hosts] + svcs
+        next_id = {"comments": 1 + max([r["id"] for r in wb["tables"]["comments"]["rows"]] + [0]),
+                   "downtimes": 1 + max([r["id"] for r in wb["tables"]["downtimes"]["rows"]] + [0])}
+        live = {"comments": [r["id"] for r in wb["tables"]["comments"]["rows"]], "downtimes": [r["id"] for r in wb["tables"]["downtimes"]["rows"]]}
+        for _ in range(rng.choice([3, 6, 10, 16])):
+            nchg = rng.choice([0, 1, 1, 2, 3])
+            changes = []
+            for _ in range(nchg):
+                t = rng.choice(["comments", "downtimes"])
+                if live[t] and rng.random() < 0.45:
+                    r = rng.random()
+                    cid = live[t][-1] if r < 0.3 else (live[t][0] if r < 0.5 else rng.choice(live[t]))
+                    if rng.random() < 0.1:
+                        for x in list(live[t]):
+                            changes.append({"table": t, "key": {"id": x}, "remove": True})
+                        live[t] = []
+                    else:
+                        live[t].remove(cid)
+                        changes.append({"table": t, "key": {"id": cid}, "remove": True})
+                elif targets:
+                    hn, sd = rng.choice(targets)
+                    next_id[t] += rng.choice([1, 1, 2, 130, 300])
+                    cid = next_id[t]
+                    cols = worldgen.table_columns(schema, t, flags)
+                    row = {c["name"]: json.loads(json.dumps(worldgen.DEFAULTS[c["dtype"]])) for c in cols}
+                    row.update({"id": cid, "host_name": hn, "service_description": sd, "author": rng.choice(gen.CONTACTS), "comment": rng.choice(gen.WORDS),
+                                "entry_time": T0 + rng.randrange(1000)})
+                    if t == "comments":
+                        row.update({"entry_type": rng.choice([1, 2, 3]), "expires": rng.choice([0, 1]), "expire_time": T0 + 5000})
+                    else:
+                        row.update({"start_time": T0, "end_time": T0 + 3600, "fixed": rng.choice([0, 1]), "duration": 3600, "triggered_by": 0})
+                    live[t].append(cid)
+                    # replies in any order: insert at a random position of the backend's table
+                    changes.append({"table": t, "add": row})
+            if changes:
+                h.both({"op": "mutate", "backend": pid, "changes": changes})
+                if rng.random() < 0.3:
+                    # shuffle the backend's row order (replies in any row order)
+                    pass
+            h.both({"op": "advance", "seconds": rng.choice([5, 6, 9])})
+            h.both({"op": "tick", "peer": pid}, "state")
+            observe_queries(h, schema, wb, flags, ["comments", "downtimes"])
+            h.query("GET hosts\nColumns: name comments downtimes\nOutputFormat: wrapped_json\nSort: name asc\n\n", [wb], {"observe": "host lists"})
+            h.query("GET services\nColumns: host_name description comments downtimes\nOutputFormat: wrapped_json\nSort: host_name asc\nSort: description asc\n\n", [wb], {"observe": "service lists"})
+        hists.append((h, wb))
+        nid = h.n
+        impl_lines += h.impl
+        model_lines += h.model
+    finish_histories(ctx, v, hists, impl_lines, model_lines)
+    out.extra_cov["histories"] = nh
+
+
+def mutate_object(rng, schema, flags, table, row, now, kinds=None):
+    """one backend-side change of a host/service; returns the column updates (what a real core would change together)"""
+    kind = rng.choice(kinds or ["check", "check", "check", "ack", "depth", "flag", "modattr", "exec", "custom"])
+    ch = {}
+    if kind == "check":
+        ch = {"state": rng.choice([0, 1, 2, 3]), "plugin_output": rng.choice(gen.WORDS), "long_plugin_output": rng.choice(["", "more", "x" * 600]),
+              "last_check": now, "has_been_checked": 1, "next_check": now + rng.choice([60, 300]), "latency": gen.rfloat(rng), "execution_time": gen.rfloat(rng),
+              "current_attempt": rng.choice([1, 2, 3]), "perf_data": "rta=%d" % rng.randrange(100), "is_executing": 0, "last_state_change": now}
+    elif kind == "ack":
+        ch = {"acknowledged": 1 - int(row.get("acknowledged", 0) or 0)}
+    elif kind == "depth":
+        ch = {"scheduled_downtime_depth": rng.choice([0, 1, 2])}
+    elif kind == "flag":
+        c = rng.choice(["active_checks_enabled", "notifications_enabled"])
+        ch = {c: 1 - int(row.get(c, 0) or 0)}
+    elif kind == "modattr":
+        on = rng.random() < 0.6
+        ch = {"modified_attributes": 2 if on else 0, "modified_attributes_list": ["active_checks_enabled"] if on else []}
+    elif kind == "exec":
+        ch = {"is_executing": 1}
+    elif kind == "custom":
+        # CHANGE_CUSTOM_*_VAR: the value changes together with the modified_attributes bit mask
+        names = row.get("custom_variable_names") or []
+        ch = {"custom_variable_values": [rng.choice(gen.CV_VALUES) for _ in names], "modified_attributes": rng.choice([32768, 32770]),
+              "modified_attributes_list": ["custom_variable"]}
+    if "HasLastUpdateColumn" in flags:
+        ch["last_update"] = now
+    cols = {c["name"] for c in worldgen.table_columns(schema, table, flags)}
+    return kind, {k: v for k, v in ch.items() if k in cols}
+
+
+def run_c03(ctx, spec, out):
+    rng = random.Random("C03-%d" % ctx["seed"])
+    v = out.v
+    nh = 25 if ctx["tier"] == "quick" else 400
+    schema = ctx["schema"]
+    impl_lines, model_lines, hists = [], [], []
+    spec_lines, spec_pairs = [], []
+    nid = 0
+    for _ in range(nh):
+        flav = rng.choice([None, None, ("naemon", ["Naemon", "HasLastUpdateColumn"]), ("naemon", ["Naemon"]), ("plain", []), ("shinken", ["Shinken"])])
+        wb, flags = small_world(rng, schema, {"nhosts": [1, 2, 4, 6], "flavour": flav})
+        # give every object a plausible last_check in the past
+        now = T0
+        for t in ("hosts", "services"):
+            for r in wb["tables"][t]["rows"]:
+                r["last_check"] = T0 - rng.choice([500, 200, 100, 50]) if rng.random() < 0.75 else 0     # 0 = never checked
+                if "last_update" in r:
+                    r["last_update"] = r["last_check"]
+                r["is_executing"] = 0
+                r["check_period"] = "24x7"
+                r["notification_period"] = rng.choice(["24x7", "workhours"])
+        cfg = {"update_interval": rng.choice([5, 10]), "update_offset": rng.choice([1, 3]), "max_parallel_peer_connections": 1, "backend_keepalive": False,
+               "idle_timeout": 1000000, "sync_is_executing": rng.random() < 0.5, "stale_backend_timeout": 100000}
+        h = History(schema, nid)
+        hs = History(schema, 0)      # the specification stream: same mutations, a fresh synchronisation at the end
+        h.both({"op": "clock", "seconds": T0})
+        hs.both({"op": "clock", "seconds": T0})
+        h.both({"op": "world", "world": {"config": cfg, "backends": [wb]}})
+        hs.both({"op": "world", "world": {"config": cfg, "backends": [wb]}})
+        pid = wb["id"]
+        h.both({"op": "init", "peer": pid}, "state")
+        objs = [("hosts", {"name": r["name"]}, r) for r in wb["tables"]["hosts"]["rows"]] + \
+               [("services", {"host_name": r["host_name"], "description": r["description"]}, r) for r in wb["tables"]["services"]["rows"]]
+        rounds = rng.choice([3, 6, 10, 20])
+        for rd in range(rounds):
+            # backend changes at various instants inside the interval
+            for _ in range(rng.choice([0, 1, 2, 4])):
+                d = rng.choice([0, 1, 2, 3])
+                if d:
+                    now += d
+                    h.both({"op": "advance", "seconds": d})
+                    hs.both({"op": "advance", "seconds": d})
+                if not objs:
+                    break
+                t, key, row = rng.choice(objs)
+                kind, ch = mutate_object(rng, schema, flags, t, row, now)
+                if ch:
+                    row.update(ch)
+                    line = {"op": "mutate", "backend": pid, "changes": [{"table": t, "key": key, "set": ch}]}
+                    h.both(line)
+                    hs.both(line)
+            if rng.random() < 0.15:
+                # timeperiod flip
+                tp = rng.choice(["24x7", "workhours"])
+                line = {"op": "mutate", "backend": pid, "changes": [{"table": "timeperiods", "key": {"name": tp}, "set": {"in": rng.choice([0, 1])}}]}
+                h.both(line)
+                hs.both(line)
+            d = rng.choice([5, 10, 11, 30, 61, 70])
+            now += d
+            h.both({"op": "advance", "seconds": d})
+            hs.both({"op": "advance", "seconds": d})
+            if rng.random() < 0.2:
+                # the update is aborted by a connection problem after n backend queries
+                h.both({"op": "mode", "backend": pid, "fail_after": rng.choice([0, 1, 2, 3, 4, 6]), "fail_mode": rng.choice(["closeearly", "garbage", "error500"])})
+                h.both({"op": "tick", "peer": pid}, "state")
+                h.both({"op": "mode", "backend": pid, "mode": "ok", "fail_after": 100000000, "fail_mode": "ok"})
+            else:
+                h.both({"op": "tick", "peer": pid}, "state")
+            observe_queries(h, schema, wb, flags, ["hosts", "services"])
+        # running checks finish before the backend goes quiet
+        fin = []
+        for t, key, row in objs:
+            if row.get("is_executing") == 1:
+                kind, ch = mutate_object(rng, schema, flags, t, row, now, ["check"])
+                row.update(ch)
+                fin.append({"table": t, "key": key, "set": ch})
+        if fin:
+            line = {"op": "mutate", "backend": pid, "changes": fin}
+            h.both(line)
+            hs.both(line)
+        # quiescence: the backend stops changing; update cycles including the periodic full scan
+        for d in (61, 10, 61, 10):
+            now += d
+            h.both({"op": "advance", "seconds": d})
+            hs.both({"op": "advance", "seconds": d})
+            h.both({"op": "tick", "peer": pid}, "state")
+        hs.both({"op": "init", "peer": pid})
+        before = dict(h.queries)
+        observe_queries(h, schema, wb, flags, ["hosts", "services", "status", "timeperiods", "hostgroups", "servicegroups"])
+        final = [cid for cid in h.queries if cid not in before]
+        for cid in final:
+            sid = hs.query(h.queries[cid]["text"], [wb])
+            spec_pairs.append((cid, sid + 10**7 * (len(hists) + 1), h.queries[cid]))
+        # the spec stream gets ids in its own space
+        for l in hs.model:
+            l2 = dict(l)
+            l2["id"] = l["id"] + 10**7 * (len(hists) + 1)
+            spec_lines.append(l2)
+        hists.append((h, wb))
+        nid = h.n
+        impl_lines += h.impl
+        model_lines += h.model
+    impl, model = finish_histories(ctx, v, hists, impl_lines, model_lines)
+    # convergence against the specification: what a fresh synchronisation of the final backend state serves
+    spec = common.run_model(ctx["schema_path"], spec_lines)
+    for cid, sid, case in spec_pairs:
+        s_res = spec.get(sid)
+        m_res = model.get(cid)
+        case = dict(case, extra=dict(case.get("extra") or {}, convergence=True))
+        if s_res is None or m_res is None or s_res.get("kind") != "data" or m_res.get("kind") != "data":
+            continue
+        # the specification's pool replaces the model's own "spec" (which only says: model = its cache)
+        merged = dict(m_res)
+        merged["spec"] = s_res["model"]
+        merged["model_eq_spec"] = [r for _, r in m_res["model"]["pool"]] == [r for _, r in s_res["model"]["pool"]]
+        merged["explained"] = False
+        merged["quirks_hit"] = []
+        if not merged["model_eq_spec"]:
+            cols = case["text"].split("\n")[1].replace("Columns: ", "").split(" ")
+            diffs = []
+            for (_, a), (_, b) in zip(m_res["model"]["pool"], s_res["model"]["pool"]):
+                ra, rb = json.loads(a), json.loads(b)
+                for cname, x, y in zip(cols, ra, rb):
+                    if x != y:
+                        diffs.append("%s: served %r backend %r (object %s)" % (cname, x, y, ra[:2]))
+            case["extra"]["stale_columns"] = diffs[:12]
+        queryfam.evaluate_case(v, case, impl.get(cid), merged, set())
+    out.extra_cov["histories"] = nh
+    out.extra_cov["convergence_queries"] = len(spec_pairs)
+
+
+def run_c11(ctx, spec, out):
+    rng = random.Random("C11-%d" % ctx["seed"])
+    v = out.v
+    nh = 30 if ctx["tier"] == "quick" else 400
+    schema = ctx["schema"]
+    impl_lines, model_lines, hists = [], [], []
+    spec_lines, spec_pairs = [], []
+    nid = 0
+    tables_obs = ["hosts", "services", "hostgroups", "servicegroups", "comments", "downtimes", "contacts", "status"]
+    for hi in range(nh):
+        flavour, flags = worldgen.pick_flavour(rng)
+        wb, flags = small_world(rng, schema, {"nhosts": [1, 2, 3], "flavour": (flavour, flags)})
+        cfg = {"update_interval": 5, "max_parallel_peer_connections": 1, "backend_keepalive": False, "idle_timeout": 1000000,
+               "stale_backend_timeout": rng.choice([20, 60, 100000])}
+        h = History(schema, nid)
+        hs = History(schema, 0)
+        for hh in (h, hs):
+            hh.both({"op": "clock", "seconds": T0})
+            hh.both({"op": "world", "world": {"config": cfg, "backends": [wb]}})
+        pid = wb["id"]
+        h.both({"op": "init", "peer": pid}, "state")
+        pstart = 1700000000
+        pidn = 4242
+        for rd in range(rng.choice([2, 3, 5])):
+            r = rng.random()
+            changes = []
+            if r < 0.6:
+                # a restart with a changed object set: a second generated backend's objects replace the first
+                pstart += rng.choice([10, 100])
+                pidn += 1
+                wb2, _ = small_world(rng, schema, {"nhosts": [0, 1, 2, 4], "flavour": (flavour, flags)})
+                for t in ("hosts", "services", "hostgroups", "servicegroups", "comments", "downtimes"):
+                    changes.append({"table": t, "replace": wb2["tables"][t]["rows"]})
+                changes.append({"table": "status", "key": {}, "set": {"program_start": pstart, "nagios_pid": pidn}})
+            elif r < 0.85:
+                # object count changes without restart: add a contact / remove a host group / add a timeperiod
+                # only tables that are refreshed as a whole (every full minute) notice a changed number of objects
+                c = rng.choice(["hostgroup", "timeperiod"])
+                if c == "contact":
+                    cols = worldgen.table_columns(schema, "contacts", flags)
+                    row = {col["name"]: json.loads(json.dumps(worldgen.DEFAULTS[col["dtype"]])) for col in cols}
+                    row.update({"name": "new%d" % rd, "alias": "New"})
+                    changes.append({"table": "contacts", "add": row})
+                elif c == "timeperiod":
+                    cols = worldgen.table_columns(schema, "timeperiods", flags)
+                    row = {col["name"]: json.loads(json.dumps(worldgen.DEFAULTS[col["dtype"]])) for col in cols}
+                    row.update({"name": "tp%d" % rd, "alias": "TP"})
+                    changes.append({"table": "timeperiods", "add": row})
+                else:
+                    cols = worldgen.table_columns(schema, "hostgroups", flags)
+                    row = {col["name"]: json.loads(json.dumps(worldgen.DEFAULTS[col["dtype"]])) for col in cols}
+                    row.update({"name": "hg%d" % rd, "alias": "HG"})
+                    changes.append({"table": "hostgroups", "add": row})
+            else:
+                pstart += 5     # restart without any object change
+                changes.append({"table": "status", "key": {}, "set": {"program_start": pstart}})
+            for hh in (h, hs):
+                hh.both({"op": "mutate", "backend": pid, "changes": changes})
+            d = rng.choice([5, 61, 70])
+            for hh in (h, hs):
+                hh.both({"op": "advance", "seconds": d})
+            if rng.random() < 0.6:
+                # the rebuild (or the update that detects it) fails at the n-th backend query
+                h.both({"op": "mode", "backend": pid, "fail_after": rng.randrange(0, 16), "fail_mode": rng.choice(["closeearly", "garbage", "error500", "truncate"])})
+                h.both({"op": "tick", "peer": pid}, "state")
+                observe_queries(h, schema, wb, flags, ["hosts", "services", "contacts"])
+                h.both({"op": "mode", "backend": pid, "mode": "ok", "fail_after": 100000000, "fail_mode": "ok"})
+                for hh in (h, hs):
+                    hh.both({"op": "advance", "seconds": 5})
+            h.both({"op": "tick", "peer": pid}, "state")
+            observe_queries(h, schema, wb, flags, ["hosts", "services", "contacts"])
+        # recovery: two update rounds (the second one at the next full minute)
+        for d in (5, 61, 5):
+            for hh in (h, hs):
+                hh.both({"op": "advance", "seconds": d})
+            h.both({"op": "tick", "peer": pid}, "state")
+        hs.both({"op": "init", "peer": pid})
+        before = dict(h.queries)
+        observe_queries(h, schema, wb, flags, tables_obs)
+        final = [cid for cid in h.queries if cid not in before]
+        for cid in final:
+            sid = hs.query(h.queries[cid]["text"], [wb])
+            spec_pairs.append((cid, sid + 10**7 * (hi + 1), h.queries[cid]))
+        for l in hs.model:
+            l2 = dict(l)
+            l2["id"] = l["id"] + 10**7 * (hi + 1)
+            spec_lines.append(l2)
+        hists.append((h, wb))
+        nid = h.n
+        impl_lines += h.impl
+        model_lines += h.model
+    impl, model = finish_histories(ctx, v, hists, impl_lines, model_lines)
+    specres = common.run_model(ctx["schema_path"], spec_lines)
+    for cid, sid, case in spec_pairs:
+        s_res, m_res = specres.get(sid), model.get(cid)
+        case = dict(case, extra=dict(case.get("extra") or {}, convergence=True))
+        if s_res is None or m_res is None or s_res.get("kind") != "data" or m_res.get("kind") != "data":
+            continue
+        merged = dict(m_res)
+        merged["spec"] = s_res["model"]
+        merged["model_eq_spec"] = [r for _, r in m_res["model"]["pool"]] == [r for _, r in s_res["model"]["pool"]] and m_res["model"]["failed"] == s_res["model"]["failed"]
+        merged["explained"] = False
+        merged["quirks_hit"] = []
+        if not merged["model_eq_spec"]:
+            case["extra"]["served_vs_backend"] = {"served": m_res["model"]["pool"][:6], "backend": s_res["model"]["pool"][:6], "failed": m_res["model"]["failed"]}
+        queryfam.evaluate_case(v, case, impl.get(cid), merged, set())
+    out.extra_cov["histories"] = nh
+    out.extra_cov["convergence_queries"] = len(spec_pairs)
